@@ -61,6 +61,14 @@ func (p *Processor) OnColumn(ctx context.Context, data []byte) (context.Context,
 		return base.MarkNotDecryptedContext(ctx), p.rawData, nil
 	}
 
+	if base.IsDecryptedFromContext(ctx) {
+		// called after decryption: hash (if any) is verified above and data is plaintext,
+		// which should not be searched for a hash prefix again
+		p.hashData = nil
+		p.matchedHash = nil
+		return ctx, data, nil
+	}
+
 	p.matchedHash = ExtractHash(data)
 	if p.matchedHash == nil {
 		p.hashData = nil
